@@ -27,6 +27,8 @@ CHECKS = {
              technique="custom MIR analysis: guard dominance on non-empty returns, return-value role tables, call-graph closure effect audit", ref="§4 C05"),
  "C03": dict(text="Static necessary conditions of hygienic rewriting (capture avoidance comes from slots): both sides of a rule are instantiated from the same substitution and exactly those two are unioned; at the exposure points (enodes_applied, final_subst) every bound, redundant or uncovered slot is replaced by Slot::fresh(), occurrence loops are exhaustive and renaming is guarded by 'not a class slot'; a fresh name invented while renaming occurrences is memoised per slot (sibling agreement); b[x := t] replaces on equality of whole invocations; only Slot::fresh may invent names (census of numeric/named callers against a frozen list). Preservation of meaning in a model is not decided.",
              technique="custom MIR analysis: guard dominance on slot stores, loop-exit path rule, sibling-agreement (memoisation) rule, who-may-call census", ref="§4 C03"),
+ "C07": dict(text="Static necessary conditions of proof validity, decided in the explanations configurations (which the pinned suite never builds): ProvenEqRaw is constructed only in the five *Proof::check kernels, each behind at least one premise guard and storing the checked equation, with private fields; leaves are produced only by union_instantiations from the user's justification and exactly the synified instantiations; orientation coherence between every permutation and the proof paired with it at the three sites (leader union, self-symmetry derivation, explanation), cross-checked against each other and against the invariant ProvenPerm::check asserts; composition/inverse/chaining helpers pair permutation algebra with the matching proof combinator (frozen role table); proof-carrying sifting mirrors sifting; the conclusion is the queried pair in order. Validity of each proof object as a value is not decided.",
+             technique="custom MIR analysis: who-may-construct (kernel confinement), operand-role tables for orientation, sibling cross-check, guard dominance", ref="§4 C07"),
  "C02": dict(text="Static necessary conditions of congruence-closure completeness: inter-procedural work-list summaries prove that no public &mut entry point returns with a non-empty work-list in any feature configuration; the drain loop exits only on empty; every class-level change re-queues usages with Full; PendingType::merge truth table; remove/re-insert pairing and self-symmetry derivation in the work-list handler; orbit closure feeds the stored slot set (known finding F1). Does not decide that the fixpoint equals the congruence closure.",
              technique="custom MIR analysis: inter-procedural must-pass-through summaries (greatest fixpoint), path rules, exhaustive constant evaluation of a 2x2 match, value dependence", ref="§4 C02"),
  "C01": dict(text="Static necessary conditions of equality soundness, decided on the MIR of every feature configuration: eq() answers true only via the class-group membership test behind the id and slot-set guards on canonicalised operands; the slot-set writer's cap is an intersection; add-permutation / merge branch discipline; union-find edge orientation. Does not decide soundness of computed slot maps as values.",
